@@ -211,8 +211,11 @@ class Runner:
                  "dimension": dimension(culprit, call) if culprit else "unminimised",
                  "reproduced_in_pristine_replay": repro,
                  "outcome_kind": out[0] if out[0] == "exc" else "value", "exc": out[1] if out[0] == "exc" else None}
-        ctx.violation({"call": call, "culprit": culprit, "note": note,
-                       "history_tail": [h["id"] for h in self.history[-6:]]}, out, ref, "history-dependence", feats)
+        case = {"call": call, "culprit": culprit, "note": note, "history_tail": [h["id"] for h in self.history[-6:]]}
+        if culprit is None:
+            # no single earlier call reproduces it: the witness is the recent history itself ([pool id, api] pairs)
+            case["history"] = [[h["id"], h["api"]] for h in self.history[-400:] if h.get("id", -1) >= 0]
+        ctx.violation(case, out, ref, "history-dependence", feats)
 
     def minimise(self, call, ref):
         """Find one earlier call that alone makes `call` diverge in a pristine process."""
@@ -412,6 +415,9 @@ def replay_case(ctx, v):
         tail = [pool[i] for i in case.get("history_tail", [])[:-1] if i in pool]
         if tail:
             seqs.append(([call] if call["api"] == "inst" else []) + tail + [call])
+        if case.get("history"):
+            hist = [dict(pool[i], api=a) for i, a in case["history"][:-1] if i in pool]
+            seqs.append(hist + [call])
         seqs.append([call])
         for seq in seqs:
             out = srv.run(seq)[-1]
